@@ -31,6 +31,7 @@ for line in open('/verif/properties.jsonl'):
                     sites.append(s)
     wt = '/tmp/wt/r%s/%s' % (rnd, pid)
     out = (head + '---\n' + text + '---\n' + pre + 'Favour changes that a careful reviewer could plausibly approve:\n' + '\n'.join(sites) + '\n' + post)
+    out = out.replace('Favour changes that a careful reviewer could plausibly approve:', 'Read the property statement clause by clause and prefer clauses and mechanisms that none of the sites below belongs to (including helper packages the listed files call into, configuration-dependent branches such as consensus-version switches, start-up/restore paths, and the less travelled transaction or message types). Favour changes that a careful reviewer could plausibly approve:')
     out = out.replace('/tmp/wt/r3/C10', wt)
     open('/tmp/wt/prompt_r%s_%s.txt' % (rnd, pid), 'w').write(out)
     print(pid, len(sites), 'used sites')
